@@ -1,7 +1,8 @@
 (* Model/Process.v - executable model of the process-level state a GEOPHIRES-X run touches (C08):
      * the current working directory and sys.argv,
      * the input files on disk,
-     * GeophiresXClient instances with their result cache keyed by hash(file path),
+     * GeophiresXClient instances with their result cache (key: a parameter of the model; the code under test
+       uses hash(file path) = [path_key]; [content_key] is the repaired cache kept as a named alternative),
    and of the code that moves it:
      * GEOPHIRESv3.main()            - os.chdir(<directory of GEOPHIRESv3.py>), reads sys.argv[1], runs or raises;
      * GeophiresXClient.get_geophires_result - cache lookup, stash cwd/argv, set argv, main(), restore
@@ -47,6 +48,12 @@ Section Process.
   Variables C R : Type.            (* file contents, results *)
   Variable run : C -> option R.    (* the simulation: Some result, or None when it raises / exits *)
   Variable hash : nat -> Z.        (* hash(file path): GeophiresInputParameters.__hash__ *)
+  (* the key of the client's result cache, computed from the requested path and the content its file has at
+     request time.  The code under test uses [path_key] (hash of the path, content ignored); [content_key]
+     (path hash AND content) is the repaired cache, kept as a named alternative. *)
+  Variable K : Type.
+  Variable keq : K -> K -> bool.
+  Variable keyof : nat -> option C -> K.
 
   (* files on disk: latest write first; [None] = deleted *)
   Definition fs : Type := list (nat * option C).
@@ -60,12 +67,12 @@ Section Process.
   Definition expected (f : fs) (p : nat) : option R :=
     match fs_lookup p f with Some c => run c | None => None end.
 
-  Record client : Type := mkClient { caching : bool; cache : list (Z * R) }.
+  Record client : Type := mkClient { caching : bool; cache : list (K * R) }.
 
-  Fixpoint cache_lookup (k : Z) (l : list (Z * R)) : option R :=
+  Fixpoint cache_lookup (k : K) (l : list (K * R)) : option R :=
     match l with
     | [] => None
-    | (k', r) :: t => if Z.eqb k k' then Some r else cache_lookup k t
+    | (k', r) :: t => if keq k k' then Some r else cache_lookup k t
     end.
 
   Record state : Type := mkState { cwd : dir; argv : list arg; files : fs; clients : list client }.
@@ -101,13 +108,13 @@ Section Process.
     match nth_error (clients st) ci with
     | None => (st, NoSuchClient)
     | Some cl =>
-        let key := hash p in
+        let key := keyof p (fs_lookup p (files st)) in
         match (if caching cl then cache_lookup key (cache cl) else None) with
         | Some r => (st, Returned r true)
         | None =>
             let stash_cwd := cwd st in
             let stash_argv := argv st in
-            let (st2, res) := main_run (set_argv st [AEmpty; AIn p; AOut key]) in
+            let (st2, res) := main_run (set_argv st [AEmpty; AIn p; AOut (hash p)]) in
             let restored := set_cwd (set_argv st2 stash_argv) stash_cwd in
             match res with
             | None => (if fixed then restored else st2, Raised)
@@ -176,20 +183,21 @@ Arguments Chdir {C}.
 Arguments SetArgv {C}.
 Arguments NewClient {C}.
 Arguments Cli {C}.
-Arguments mkClient {R}.
-Arguments caching {R}.
-Arguments cache {R}.
-Arguments mkState {C R}.
-Arguments cwd {C R}.
-Arguments argv {C R}.
-Arguments files {C R}.
-Arguments clients {C R}.
-Arguments before {C R}.
-Arguments eop {C R}.
-Arguments after {C R}.
-Arguments eout {C R}.
-Arguments mkEvent {C R}.
-Arguments init {C R}.
+Arguments mkClient {R K}.
+Arguments caching {R K}.
+Arguments cache {R K}.
+Arguments mkState {C R K}.
+Arguments cwd {C R K}.
+Arguments argv {C R K}.
+Arguments files {C R K}.
+Arguments clients {C R K}.
+Arguments before {C R K}.
+Arguments eop {C R K}.
+Arguments after {C R K}.
+Arguments eout {C R K}.
+Arguments mkEvent {C R K}.
+Arguments init {C R K}.
+Arguments cache_lookup {R K}.
 Arguments is_run {C}.
 Arguments is_get {C}.
 Arguments fs_lookup {C}.
@@ -198,6 +206,19 @@ Arguments fs_lookup {C}.
    Concrete instance used by the correspondence: contents and results are numbers, the result of a
    content is the content itself (so a returned result names the content it was computed from),
    contents listed in [okc] run, all others raise; hash = the path identifier. *)
+(* the cache key of the code under test: hash(file path), whatever the file holds *)
+Definition path_key {C : Type} (hash : nat -> Z) (p : nat) (_ : option C) : Z := hash p.
+
+(* the repaired cache: path hash and content *)
+Definition content_key {C : Type} (hash : nat -> Z) (p : nat) (c : option C) : Z * option C := (hash p, c).
+Definition content_keq {C : Type} (ceq : C -> C -> bool) (a b : Z * option C) : bool :=
+  Z.eqb (fst a) (fst b) &&
+  match snd a, snd b with
+  | Some x, Some y => ceq x y
+  | None, None => true
+  | _, _ => false
+  end.
+
 Definition crun (okc : list nat) (c : nat) : option nat :=
   if existsb (Nat.eqb c) okc then Some c else None.
 Definition chash (p : nat) : Z := Z.of_nat p.
@@ -253,18 +274,25 @@ Definition F_REFINE : N := 3.    (* property: result is not the run of the curre
 Definition F_STALE : N := 4.     (* property: the same, and it is exactly the modelled path-keyed cache hit *)
 Definition F_HARNESS : N := 9.   (* observation list and operation list differ in length *)
 
-Definition obs_matches (e : event nat nat) (b : obs) : bool :=
+(* the two instances the correspondence runs *)
+Definition ptrace (okc : list nat) (fixed : bool) (d : dir) (a : list arg) (ops : list (op nat)) : list (event nat nat Z) :=
+  trace nat nat (crun okc) chash Z Z.eqb (path_key chash) fixed (init d a []) ops.
+Definition ctrace (okc : list nat) (fixed : bool) (d : dir) (a : list arg) (ops : list (op nat))
+  : list (event nat nat (Z * option nat)) :=
+  trace nat nat (crun okc) chash (Z * option nat) (content_keq Nat.eqb) (content_key chash) fixed (init d a []) ops.
+
+Definition obs_matches {K : Type} (e : event nat nat K) (b : obs) : bool :=
   dir_eqb (cwd (after e)) (o_cwd_after b) && list_eqb arg_eqb (argv (after e)) (o_argv_after b)
   && outcome_eqb (eout e) (o_out b).
 
-Definition stale_hit_as_modelled (e : event nat nat) (b : obs) : bool :=
+Definition stale_hit_as_modelled {K : Type} (e : event nat nat K) (b : obs) : bool :=
   match eout e with
   | Returned _ true => outcome_eqb (eout e) (o_out b)
   | _ => false
   end.
 
 (* codes of a session: step * 10 + code (binary numbers: cheap for the VM) *)
-Fixpoint session_codes (okc : list nat) (i : N) (f : fs nat) (evs : list (event nat nat)) (os : list obs)
+Fixpoint session_codes {K : Type} (okc : list nat) (i : N) (f : fs nat) (evs : list (event nat nat K)) (os : list obs)
   : list N :=
   match evs, os with
   | e :: evs', b :: os' =>
@@ -281,13 +309,17 @@ Fixpoint session_codes (okc : list nat) (i : N) (f : fs nat) (evs : list (event 
 (* a session = one process: initial cwd/argv, the operations, what was observed *)
 Definition session_check (fixed : bool) (okc : list nat) (d : dir) (a : list arg) (ops : list (op nat))
   (os : list obs) : list N :=
-  session_codes okc 0%N [] (trace nat nat (crun okc) chash fixed (init d a []) ops) os.
+  session_codes okc 0%N [] (ptrace okc fixed d a ops) os.
 
-(* does the implementation behave like the given variant of the client on the whole session? *)
-Definition session_matches (fixed : bool) (okc : list nat) (d : dir) (a : list arg) (ops : list (op nat))
-  (os : list obs) : bool :=
-  let evs := trace nat nat (crun okc) chash fixed (init d a []) ops in
+(* does the implementation behave like the given variant of the client on the whole session?
+   [session_matches]: path-keyed cache (fixed = true: current client, false: client of the pinned tree);
+   [session_matches_repaired]: current client with the content-keyed cache *)
+Definition all_match {K : Type} (evs : list (event nat nat K)) (os : list obs) : bool :=
   Nat.eqb (length evs) (length os) && forallb (fun eb => obs_matches (fst eb) (snd eb)) (combine evs os).
+Definition session_matches (fixed : bool) (okc : list nat) (d : dir) (a : list arg) (ops : list (op nat))
+  (os : list obs) : bool := all_match (ptrace okc fixed d a ops) os.
+Definition session_matches_repaired (fixed : bool) (okc : list nat) (d : dir) (a : list arg) (ops : list (op nat))
+  (os : list obs) : bool := all_match (ctrace okc fixed d a ops) os.
 
 (* many sessions: (number of sessions, [session * 100000 + step * 10 + code]) *)
 Fixpoint sessions_codes (k : N) (l : list (list N)) : list N :=
